@@ -33,7 +33,7 @@ class RawX12File(object):
         """
         self.fd = fin
         self.buffer = None
-        line = self.fd.read(ISA_LEN)
+        line = self._read(ISA_LEN)
         if line[:3] != 'ISA':
             err_str = "First line does not begin with 'ISA': %s" % line[:3]
             raise pyx12.errors.X12Error(err_str)
@@ -51,6 +51,19 @@ class RawX12File(object):
         self.buffer = line
         self.buffer += self.fd.read(DEFAULT_BUFSIZE)
 
+    def _read(self, size):
+        """
+        Read size characters, fewer only at the end of the stream.
+        A text stream may legitimately return less than asked for.
+        """
+        data = self.fd.read(size)
+        while data and len(data) < size:
+            more = self.fd.read(size - len(data))
+            if not more:
+                break
+            data += more
+        return data
+
     def __iter__(self):
         """
         Iterate over input lines
@@ -58,9 +71,12 @@ class RawX12File(object):
         Split the input stream on the delimiter and remove any leading CR-LF
         """
         while True:
-            if self.buffer.find(self.seg_term) == -1:
-                # Need more data
-                self.buffer += self.fd.read(DEFAULT_BUFSIZE)
+            while self.buffer.find(self.seg_term) == -1:
+                # Need more data, the segment may be longer than one read
+                data = self.fd.read(DEFAULT_BUFSIZE)
+                if not data:
+                    break
+                self.buffer += data
             if self.buffer.find(self.seg_term) == -1:
                 # Still have no segment terminator
                 break
